@@ -19,6 +19,7 @@ def main():
         mod = importlib.import_module("harness.props." + args.pid.lower())
         if args.replay:
             return mod.replay(args.replay)
+        os.environ["VERIF_TIER"] = args.tier          # the audit re-checks the compiled proofs independently in the thorough tier
         return mod.run(args.tier, seed)
     except MachineryError as e:
         print("MACHINERY-ERROR %s: %s" % (args.pid, e), file=sys.stderr)
